@@ -68,6 +68,16 @@ pub fn pre_lists(thorough: bool, seed: usize) -> Vec<(Vec<Vec<u8>>, Vec<u8>)> {
         }
         v.push((pats, halpha));
     }
+    // documented thresholds of the prefilter builders: patterns of 255 / 256 / 300 bytes next to
+    // a short pattern with a rare byte (the rare-byte prefilter must be disabled at >= 256)
+    for long in [200usize, 255, 256, 257, 300] {
+        for short in [&b"#tag"[..], &b"zq"[..], &b"Q"[..]] {
+            let text = b"enabling or disabling the prefilter never changes a search result; ";
+            let p: Vec<u8> = (0..long).map(|i| text[i % text.len()]).collect();
+            v.push((vec![short.to_vec(), p.clone()], b"et a.x".to_vec()));
+            v.push((vec![p, short.to_vec()], b"et a.x".to_vec()));
+        }
+    }
     v
 }
 
@@ -136,8 +146,9 @@ pub fn run(args: &Args) -> Report {
             hays.push(rng.bytes(halpha, l));
         }
         let mut longs: Vec<Vec<u8>> = vec![];
+        let maxp = pats.iter().map(|p| p.len()).max().unwrap_or(0);
         for _ in 0..(if thorough { 12 } else { 5 }) {
-            let l = 64 + rng.below(240);
+            let l = 64 + rng.below(240) + if maxp > 60 { maxp } else { 0 };
             let mut h = if rng.below(2) == 0 { rng.bytes(halpha, l) } else { vec![b'x'; l] };
             for _ in 0..rng.below(4) {
                 let p = &pats[rng.below(pats.len())];
